@@ -134,11 +134,13 @@ def run(repo: Repo, rep: Report, tier: str) -> None:
         "SignalLiteral.signal_type": ["ExpressionLowerer.lower_signal_literal", "ExpressionLowerer._lower_typed_literal_value"],
         "ProjectionExpr.target_type": ["ExpressionLowerer.lower_projection_expr", "ExpressionLowerer._try_fold_projection_into_source"],
         "MemDecl.signal_type": ["MemoryLowerer.lower_mem_decl"],
+        "BundleLiteral member (constant part)": ["ExpressionLowerer.lower_bundle_literal"],
     }
     EXAMPLE = {
         "SignalLiteral.signal_type": "Signal a = (\"signal-A\", 5); Signal b = 7; Signal c = a + b;  -> the untyped b is allocated signal-A as well",
         "ProjectionExpr.target_type": "Signal x = 5; Signal y = (x * 2) | \"signal-A\"; Signal z = 7; Bundle r = {y, z};  -> an untyped value would share signal-A with y",
         "MemDecl.signal_type": "Memory m: \"signal-A\"; Signal b = 7; m.write(b + 1, when=b > 0); Signal r = m.read() + b;  -> the untyped b is allocated the cell's signal-A",
+        "BundleLiteral member (constant part)": "Bundle b = {(\"signal-A\", 1), (\"signal-B\", 2)}; Signal k = 3; Bundle r = b * k;  -> the untyped k is allocated signal-A, a member of b (constant members never pass through lower_signal_literal)",
     }
     helper_registers_builtins = any(f.short.endswith("ensure_signal_registered") and k == "signal-name" and not b for f, c, t, k, b in contributions)
     rep.analysed["C13-R2:registration helper records built-in names"] = helper_registers_builtins
@@ -168,7 +170,8 @@ def run(repo: Repo, rep: Report, tier: str) -> None:
         ok = bool(direct) or bool(unblocked)
         rep.check(ok, "C13-R2", f"explicit signal names written in {slot} reach the allocation exclusion set",
                   (f"{direct[0][0].short}: {norm(direct[0][1])[:70]}" if direct else f"{unblocked[0][0].short}: {norm(unblocked[0][1])[:70]}") if ok else
-                  "only ensure_signal_registered is called, which returns before registering any name already in the game database, and referenced_signal_names receives variable names: "
+                  ("only ensure_signal_registered is called, which returns before registering any name already in the game database, and referenced_signal_names receives variable names: "
+                   if any(call_name(c_) == "ensure_signal_registered" for h_ in hs for c_ in calls_in(h_.node)) else "the handler records the name nowhere the allocator looks: ")
                   + EXAMPLE[slot], hs[0].loc())
 
     # ---------------- R3 ---------------------------------------------------------------
